@@ -4,7 +4,7 @@ Configuration space (default first on every axis): closure {MOST, MOSTM, CONSTAN
 footprint; analytic; halo {None, 20, 13}; modes {(8,6), (4,4), (64,64)}; levels {default, output_levels
 [1,3], [3,1], full_output}; forcing {ustar, z0 only, z0 and ustar}; each of ustar / mol / wind_speed /
 wind_dir scalar or list; timestamps {absent, list}; towers {1, 2 with different heights and positions};
-reference origin {present, absent}; source {ideal diamond, circle, point, point with src_loc,
+reference origin {present, absent}; whole numbers written as floats or as integers; source {ideal diamond, circle, point, point with src_loc,
 user-supplied array}.  Enumeration: EVERY configuration that deviates from the default in at most d axes
 (d = 0, 1, 2 quick; 3 thorough) x EVERY tower x EVERY time index.
 Oracle: the hand-written pipeline compute_wind_fields -> vertical_profiles -> ideal_source ->
@@ -25,7 +25,7 @@ PROPERTY = "C13"
 LEVEL = "exploration"
 MANIFEST = {
     "technique": "deviation-bounded exhaustive enumeration of the configuration space (all configurations within <= d axis deviations of the default, d iterated) x every tower x every time index; differential oracle (hand-written low-level pipeline)",
-    "text": "Every configuration that differs from the default in at most two (thorough: three) of 16 axes is parsed and run for every tower and time index through run_bldfm_single and through the documented low-level pipeline written out by hand; the two must agree bit for bit and label for label. Dropped or swapped arguments (halo, modes, analytic, precision, levels, tower coordinates, time index, z0/ustar precedence) cannot hide because each axis has a non-default value that changes the result.",
+    "text": "Every configuration that differs from the default in at most two (thorough: three) of 17 axes is parsed and run for every tower and time index through run_bldfm_single and through the documented low-level pipeline written out by hand; the two must agree bit for bit and label for label. Dropped or swapped arguments (halo, modes, analytic, precision, levels, tower coordinates, time index, z0/ustar precedence) cannot hide because each axis has a non-default value that changes the result.",
     "note": "Bound: deviation depth d (2 quick / 3 thorough), reported. The oracle pipeline uses the library's own low-level functions (that is the property: high level == low level), so errors inside those functions are other properties' business.",
 }
 
@@ -52,6 +52,7 @@ AXES = {
     "timestamps": [("met", "timestamps", ["t0", "t1", "t2"])],
     "towers": [("towers", None, TWO)],
     "origin": [("domain", "__no_origin", None)],
+    "integers": [("__ints", None, True)],
     "source": [("solver", "surface_flux_shape", "circle"), ("solver", "surface_flux_shape", "point"), ("solver", "src_loc", [30.0, 20.0]), ("__user_flux", None, True)],
 }
 
@@ -64,6 +65,8 @@ def apply(devs):
             d["towers"] = copy.deepcopy(val)
         elif sec == "__user_flux":
             user_flux = True
+        elif sec == "__ints":
+            pass  # applied at the end
         elif key == "__z0_only":
             d["met"].pop("ustar", None)
             d["met"]["z0"] = val
@@ -72,6 +75,18 @@ def apply(devs):
             d["domain"].pop("ref_lon")
         else:
             d[sec][key] = copy.deepcopy(val)
+    if any(sec == "__ints" for sec, _, _ in devs):
+        # every whole number written as an integer (what yaml.safe_load returns for `wind_speed: 3`, `xmax: 80`, `z_m: 5`, `halo: 20`)
+        def ints(o):
+            if isinstance(o, float) and o.is_integer() and abs(o) < 1e6:
+                return int(o)
+            if isinstance(o, list):
+                return [ints(x) for x in o]
+            if isinstance(o, dict):
+                return {k: ints(v) for k, v in o.items()}
+            return o
+
+        d = ints(d)
     if "timestamps" in d["met"]:  # one label per step
         n = 3 if any(isinstance(d["met"].get(k), list) for k in ("ustar", "mol", "wind_speed", "wind_dir")) else 1
         d["met"]["timestamps"] = d["met"]["timestamps"][:n]
@@ -210,7 +225,7 @@ def run(ctx):
     dmax = 2 if ctx.tier == "quick" else 3
     cs = [{"devs": [list(x) for x in c]} for c in combos(dmax)]
     ctx.rule = (
-        "every configuration within <= %d axis deviations of the default over 16 axes (%d configurations), x every tower x every time index; non-trivial = (configuration, tower, step) triples where both sides returned and were compared; "
+        "every configuration within <= %d axis deviations of the default over 17 axes (%d configurations), x every tower x every time index; non-trivial = (configuration, tower, step) triples where both sides returned and were compared; "
         "evaluations counts executions of either side" % (dmax, len(cs))
     )
     res = ctx.run_cases(case_config, cs, sub="config")
